@@ -362,11 +362,8 @@ func findGuard() string {
 			return true
 		}
 		stack = append(stack, n)
-		call, ok := n.(*ast.CallExpr)
-		if !ok {
-			return true
-		}
-		sel, ok := call.Fun.(*ast.SelectorExpr)
+		// a call `s.upstreamRebalance()` or the method value `s.upstreamRebalance` handed to a runner
+		sel, ok := n.(*ast.SelectorExpr)
 		if !ok || sel.Sel.Name != "upstreamRebalance" {
 			return true
 		}
@@ -387,6 +384,20 @@ func findGuard() string {
 				var b strings.Builder
 				_ = printer.Fprint(&b, fset, ifs.Cond)
 				res = b.String()
+				// `<…>.Threshold != 0` in either order is the pinned guard, whatever the receiver path
+				if be, ok := ifs.Cond.(*ast.BinaryExpr); ok && be.Op == token.NEQ {
+					x, y := be.X, be.Y
+					if lit, ok := x.(*ast.BasicLit); ok && lit.Value == "0" {
+						x, y = y, x
+					}
+					if lit, ok := y.(*ast.BasicLit); ok && lit.Value == "0" {
+						var xb strings.Builder
+						_ = printer.Fprint(&xb, fset, x)
+						if strings.HasSuffix(xb.String(), "Rebalance.Threshold") {
+							res = guardWant
+						}
+					}
+				}
 				if ifs.Init != nil {
 					res = "other: if with init statement; " + res
 				}
